@@ -139,6 +139,14 @@ NARROW = {'unsigned int': (0, 2**32 - 1), 'int': (-2**31, 2**31 - 1), 'unsigned 
           'unsigned char': (0, 255)}
 
 
+def loc_depth(l):
+    d = 0
+    while isinstance(l, tuple) and l and l[0] in ('e', 'f') and len(l) > 1:
+        l = l[1]
+        d += 1
+    return d
+
+
 class State:
     __slots__ = ('env', 'facts')
 
@@ -245,7 +253,7 @@ class Analysis:
         self.func = func
         self.prog = prog
         self.T = terms or Terms()
-        self.cfg = CFG(func)
+        self.cfg = CFG(func, prog)
         self.var_names = {}
         self.param_ids = {}
         for p in func.get('params', []):
@@ -272,6 +280,10 @@ class Analysis:
             return None
         k = e.get('k')
         if k == 'var':
+            if st is not None:
+                al = st.env.get(('alias', e['id']))
+                if isinstance(al, tuple):
+                    return al          # a local reference / pointer that names another object
             return ('v', e['id'], e['n'])
         if k == 'mem':
             o = e.get('o')
@@ -306,6 +318,27 @@ class Analysis:
         if k == 'this':
             return ('thisobj',)
         return None
+
+    def alias_target(self, v, init, st):
+        """location a local reference / object pointer is bound to, when its initialiser is a plain
+        access path (member, cell, other variable); None for fresh objects and computed values"""
+        t = v.get('t', '')
+        isref = '&' in t
+        isptr = t.rstrip().endswith('*') and 'char' not in t
+        if not (isref or isptr):
+            return None
+        x = init
+        while isinstance(x, dict) and x.get('k') == 'cast':
+            x = x.get('e')
+        from .cfg import pure_lvalue
+        if not pure_lvalue(x):
+            return None
+        if isptr and isinstance(x, dict) and x.get('k') == 'un' and x.get('op') == '&':
+            x = x['a'][0]
+        l = self.loc(x, st)
+        if l is None or l == ('v', v['id'], v['n']):
+            return None
+        return l
 
     def idxkey(self, ie, st):
         if isinstance(ie, dict) and ie.get('k') == 'int':
@@ -402,6 +435,11 @@ class Analysis:
             return self.rel(SWAP[op], b, a)
         if op in ('>', '>='):
             op, a, b = SWAP[op], b, a
+        if op in ('==', '!='):
+            # (v & mask) != 0 is the bit test `v & mask` itself
+            for x, y in ((a, b), (b, a)):
+                if T.is_int(y, 0) and T.op(x) == 'op' and T.node(x)[1] == '&':
+                    return T.mk('truthy' if op == '!=' else 'falsy', x)
         if op in ('==', '!=') and a > b:
             a, b = b, a
         return T.mk('rel', op, a, b)
@@ -421,6 +459,10 @@ class Analysis:
             return self.rel('!=' if pol else '==', n[1], T.int(0))
         if n[0] == 'bool':
             return T.mk('bool', bool(n[1]) == pol)
+        if n[0] in ('truthy', 'falsy'):
+            # a stored verdict (bool b = (x & 1) != 0) tested later
+            keep = (n[0] == 'truthy') == pol
+            return T.mk('truthy' if keep else 'falsy', n[1])
         return T.mk('truthy' if pol else 'falsy', t)
 
     def ev(self, e, st, nid=0):
@@ -631,7 +673,7 @@ class Analysis:
         self.events.setdefault(nid, []).append(ev)
 
     def wire(self, nid, sub, loc, line):
-        key = (nid, sub, loc)
+        key = (nid, sub)
         n = self.site_no.get(key)
         if n is None:
             n = len(self.wire_sites)
@@ -946,7 +988,14 @@ class Analysis:
                 if v.get('vla') is not None:
                     sz = self.ev(v['vla'], st, nid)
                     self.event(nid, ('vla', sz, v['n'], n.line))
-                if v.get('init') is not None and not (v['init'].get('k') == 'ctor' and not v['init']['a']):
+                st.env.pop(('alias', v['id']), None)
+                st.env.pop(('aliasiv', v['id']), None)
+                if v.get('init') is not None and self.alias_target(v, v['init'], st) is not None:
+                    # T &r = obj;  /  mpz_ptr p = cell;  -- r / p is another name of that object
+                    self.ev(v['init'], st, nid)
+                    st.env[('alias', v['id'])] = self.alias_target(v, v['init'], st)
+                    st.env[('aliasiv', v['id'])] = tuple(self.index_ivs(v['init'], st))
+                elif v.get('init') is not None and not (v['init'].get('k') == 'ctor' and not v['init']['a']):
                     val = self.ev(v['init'], st, nid)
                     self.write(l, val, st)
                     self.event(nid, ('write', l, val, n.line))
@@ -1024,6 +1073,14 @@ class Analysis:
         T = self.T
         if isinstance(e, dict) and e.get('t') in ('unsigned char', 'const unsigned char'):
             self.octets.add(v)
+        for t in self.index_ivs(e, st):
+            v = T.mk('ix', v, t)
+        return v
+
+    def index_ivs(self, e, st):
+        """induction variables of canonical loops that index the access path e (a local alias
+        carries the ones of the path it was bound to)"""
+        T = self.T
         x = e
         ivs = []
         while isinstance(x, dict):
@@ -1047,9 +1104,11 @@ class Analysis:
                 t = self.ev_quiet(idx, st)
                 if T.op(t) == 'iv':
                     ivs.append(t)
-        for t in ivs:
-            v = T.mk('ix', v, t)
-        return v
+        if isinstance(x, dict) and x.get('k') == 'var' and st is not None:
+            more = st.env.get(('aliasiv', x['id']))
+            if isinstance(more, tuple):
+                ivs.extend(more)
+        return ivs
 
     def ix_loops(self, t):
         """loop ids of ix wrappers inside t (phi sources are not followed)"""
@@ -1200,7 +1259,9 @@ class Analysis:
                 if ('allmembers',) in mod:
                     for l in [l for l in st.env if self.root(l)[0] == 'm']:
                         del st.env[l]
-                for m in mod:
+                # parents before their cells: installing the phi of a container drops the entries of
+                # its cells, so the order must not depend on set iteration
+                for m in sorted(mod, key=lambda l: (loc_depth(l), repr(l))):
                     if m == ('allmembers',):
                         continue
                     self._cur = st
@@ -1265,7 +1326,7 @@ class Analysis:
         counting loop L are an inductive invariant of L and are kept at its head."""
         T = self.T
         cfg = self.cfg
-        gen = {k: s.facts for k, s in self.edge_out.items()}
+        gen = {k: self.split_ite_facts(s.facts) for k, s in self.edge_out.items()}
         fin = {}
         fout = {}
         univ = {}
@@ -1333,6 +1394,49 @@ class Analysis:
         for k, st in self.edge_out.items():
             st.facts = fout.get(k, frozenset())
         self.fact_rounds = rounds
+
+    def split_ite_facts(self, fs):
+        """x OP (c ? a : b)  is the pair of implications  c -> x OP a,  not c -> x OP b  (so that
+        selecting the comparand first and comparing once equals comparing under each branch)"""
+        T = self.T
+        out = None
+        for f in fs:
+            r = self.split_ite(f)
+            if r is not None:
+                if out is None:
+                    out = set(fs)
+                out.discard(f)
+                out.update(r)
+        return frozenset(out) if out is not None else fs
+
+    def split_ite(self, f):
+        T = self.T
+        n = T.node(f)
+        if n[0] == 'all':
+            r = self.split_ite(n[2])
+            if r is None:
+                return None
+            return [T.mk('all', n[1], x) for x in r]
+        if n[0] != 'rel':
+            return None
+        for side in (2, 3):
+            x = n[side]
+            wraps = []
+            xn = T.node(x)
+            while xn[0] == 'ix':
+                wraps.append(xn[2])
+                x = xn[1]
+                xn = T.node(x)
+            if xn[0] == 'ite':
+                c, a, b = xn[1], xn[2], xn[3]
+                for w in reversed(wraps):
+                    a, b = T.mk('ix', a, w), T.mk('ix', b, w)
+                other = n[5 - side]
+                fa = self.rel(n[1], a, other) if side == 2 else self.rel(n[1], other, a)
+                fb = self.rel(n[1], b, other) if side == 2 else self.rel(n[1], other, b)
+                ct, cf = self.truth(c, True), self.truth(c, False)
+                return [T.mk('if', ct, fa), T.mk('if', cf, fb)]
+        return None
 
     def join_facts(self, A, B):
         """intersection, plus implications c -> F for a condition c that holds on one side while its
@@ -1570,17 +1674,22 @@ class Analysis:
                 if vn[1]:
                     out.append((n, st.facts))
                 continue
-            out.append((n, st.facts | {self.truth(val, True)}))
+            tv = self.truth(val, True)
+            if self.neg_fact(tv) in st.facts:
+                continue          # the value returned is known to be false on this path
+            out.append((n, st.facts | {tv}))
         return out
 
     def accept_facts(self):
         ex = self.accept_exits()
         if not ex:
             return None
+        # joined like paths meeting at one return: what all accepting exits share, plus the
+        # implications c -> F when one exit was reached under c and another under not-c
         fs = None
-        for n, f in ex:
-            fs = set(f) if fs is None else fs & f
-        return fs
+        for n, f in sorted(ex, key=lambda x: x[0].id):
+            fs = frozenset(f) if fs is None else frozenset(self.join_facts(fs, frozenset(f)))
+        return set(fs)
 
     def reject_exits(self):
         T = self.T
